@@ -119,6 +119,12 @@ fn case(ctx: &mut Ctx, r: &mut Rng, n: usize) {
     let mut params = gen_params(r, &Focus { small_limits: 6, ..Focus::default() });
     params.ex_prices = None;
     params.ref_script_price = None;
+    if r.below(6) == 0 {
+        // a network whose minimum for a plain output lies next to 2^16 lovelace: the minimum itself moves
+        // when the coin of the output crosses that width
+        // (enterprise target: 333..336, base target: 291..294)
+        params.coins_per_byte = if r.bool() { 333 + r.below(4) } else { 291 + r.below(4) };
+    }
     if params.fee_a == 0 && r.bool() {
         params.fee_a = 44;
         params.fee_b = 155_381;
@@ -218,7 +224,7 @@ fn case(ctx: &mut Ctx, r: &mut Rng, n: usize) {
         // the tuning of a pure-ADA UTxO (boundary-tuned stream)
         if v.assets.is_empty() {
             let d = TUNE.with(|t| t.get());
-            if d != 0 && v.coin - d >= 1_000_000 {
+            if d != 0 && v.coin - d >= if params.coins_per_byte < 1_000 { 1 } else { 1_000_000 } {
                 v.coin -= d;
                 TUNE.with(|t| t.set(0));
             }
